@@ -107,10 +107,16 @@ def completeness_violations(spec, live, rng, trig, replay, n_inputs=3):
             if sysoracles.obs_diff({key: a}, {key: b}) is None:
                 continue
             val = getattr(live.obj(key[0]), key[1])
-            if isinstance(val, ExplainableObjectDict):
-                anc = {x.id for e in val.values() for x in e.all_ancestors_with_id}
-            else:
-                anc = {x.id for x in val.all_ancestors_with_id}
+            try:
+                if isinstance(val, ExplainableObjectDict):
+                    anc = {x.id for e in val.values() for x in e.all_ancestors_with_id}
+                else:
+                    anc = {x.id for x in val.all_ancestors_with_id}
+            except ValueError as e:
+                # an ancestor without container: the graph refers to a value the model no longer holds
+                out.append({"signature": f"C08:ancestors-raise{trig}", "detail": f"walking the ancestors of {key[0]}.{key[1]} raises: {str(e)[-160:]}",
+                            "replay": dict(replay, perturbed=op)})
+                break
             if inp_id not in anc:
                 # with a job shared by several usage patterns the ancestors are walked by id and the entries of one
                 # per-usage-pattern dict share an id: one signature for the whole D2 family, whatever the attribute
